@@ -21,7 +21,7 @@ func init() {
 		Level: "exploration",
 		Rule: "PES packets encoded by the reference codec from random/swept header models (all 256 flag bytes x 32 extension subsets incl. pack_header_field, single-bit clock values, all trick mode bytes, " +
 			"CRC values, header stuffing, four PES_packet_length modes) and decoded by the library (NextData through TS packets and the parsePESData hook); writer-supported headers " +
-			"written with WriteData and compared byte for byte after independent reassembly; units of 65 500 bytes .. 1 MiB + 1 through NextData (stage big); ClockReference.Duration against big.Int; distinct = hash of the PES bytes; " +
+			"written with WriteData and compared byte for byte after independent reassembly; units of 65 500 bytes .. 1 MiB + 1 through NextData (stage big); PES_header_data_length rewritten to every value below what the flags need: payload boundaries (stage short-header); ClockReference.Duration against big.Int; distinct = hash of the PES bytes; " +
 			"non-trivial = optional header with at least one optional field, or a non-exact length mode",
 		Assumptions: []string{"reference = refts/pes.go from ISO 13818-1 2.4.3.6-7 (anchored by a hand-assembled PTS vector in the self check)",
 			"pack_header_field: the struct keeps pack_field_length only; the pack_header() bytes must be stepped over so that the listed fields after it decode correctly",
